@@ -107,7 +107,7 @@ class Model:
             node = par
         return True
     def set_step(self, step):
-        self.ans.set_step(step); self.notes = []; self.lc = []; self.resolutions = []; self.exited_all = []; self.random_cases = []; self.utility_cases = []
+        self.ans.set_step(step); self.notes = []; self.lc = []; self.resolutions = []; self.exited_all = []; self.random_cases = []; self.utility_cases = []; self.payload_mismatch = []
 
     # scripted answers; an anonymous head has no user callbacks (the director keeps them out of resolutions)
     def a_select(self, node):
@@ -419,7 +419,17 @@ class Model:
                 self.queue = []
                 ids = [r[2] for r in pending]; evs = []
                 full = [(r[2], r[0], r[1], r[3]) for r in pending]
-                while pos < len(guards) and (guards[pos]['full'] == full if 'full' in guards[pos] else guards[pos]['pend'] == ids): evs.append(guards[pos]); pos += 1
+                nop = [x[1:] for x in full]
+                while pos < len(guards):
+                    g = guards[pos]
+                    if 'full' in g:
+                        if g['full'] == full: pass
+                        elif [x[1:] for x in g['full']] == nop and all(a[0] == b[0] or a[0] == -1 or b[0] == -1 or a[0] < b[0] for a, b in zip(g['full'], full)):
+                            # same requests carrying other (older or missing) payloads: C14's business; ids only grow, so a larger id belongs to a later round
+                            self.payload_mismatch.append((g['state'], g['full'], full))
+                        else: break
+                    elif g['pend'] != ids: break
+                    evs.append(g); pos += 1
                 if not evs: self.notes.append('round-without-guards')   # nothing to leave or enter: approved silently
                 for e in evs:
                     for q in e['issue']: self.enqueue(q)
